@@ -385,7 +385,7 @@ def rule_r4(ctx) -> RuleResult:
                 if rets and all(isinstance(r.value, ast.Call) and unparse(r.value.func).endswith("preprocess_text") for r in rets):
                     pp.append(a)
     enc = find("._encode")
-    ea = [a for a in find("expand_args") if len(a.value.args) == 2]
+    ea = [a for a in find("expand_args") if len(a.value.args) >= 2]  # a third argument appears when the closure is lifted and `parent` becomes explicit
     er = [a for a in assigns if unparse(a.value.func) == "expand_recurse" and unparse(a.targets[0]) == "t"]
     if not (len(pp) == 1 and len(enc) == 1 and len(ea) == 1 and len(er) == 1):
         raise AnalysisError("template body pipeline: steps not found (preprocess {}, encode {}, expand_args {}, expand_recurse {})".format(
